@@ -26,7 +26,7 @@ type callInfo struct {
 // calleeName computes the canonical name of the callee of a call.
 func (vc *VC) calleeName(c *ssa.CallCommon) (string, *ssa.Function) {
 	if c.IsInvoke() {
-		rt := c.Value.Type()
+		rt := types.Unalias(c.Value.Type())
 		name := ""
 		if n, ok := rt.(*types.Named); ok {
 			pk := ""
@@ -276,6 +276,9 @@ func (vc *VC) ghostNamesIn(e Expr, out map[string]bool) {
 		}
 		if e.Fun == "iscopy" {
 			out["iscopy$"] = true
+		}
+		if e.Fun == "unchanged" {
+			return // says the table is NOT touched
 		}
 		if e.Fun == "old" {
 			return
